@@ -223,6 +223,48 @@ func RunIndex(c *core.Ctx) {
 				}
 			}
 		}
+		// the nil-only range against ranges that are open below: both contain nil, whatever the operand order
+		nilIDs := map[string]bool{}
+		for _, en := range entries {
+			if en.v == nil {
+				nilIDs[en.id] = true
+			}
+		}
+		for bi := 0; bi < 10; bi++ {
+			b := bounds[(bi*len(bounds))/10]
+			if b == nil {
+				continue
+			}
+			for flags := 0; flags < 4; flags++ {
+				open := &index.Range{Start: nil, End: model.DeepCopy(b), EndIncluded: flags&1 != 0}
+				nilOnly := &index.Range{StartIncluded: true, EndIncluded: true}
+				var in *index.Range
+				if flags&2 != 0 {
+					in = nilOnly.Intersect(open)
+				} else {
+					in = open.Intersect(nilOnly)
+				}
+				c.Eval(1)
+				if in.IsEmpty() {
+					c.Violate("range:intersect-excludes", "the intersection of %s and the nil-only range [nil, nil] (receiver: %s) is %s and reports IsEmpty although both contain nil", rangeStr(open), map[bool]string{true: "nil-only", false: "open range"}[flags&2 != 0], rangeStr(in))
+					return false
+				}
+				got := map[string]bool{}
+				if err := idx.IterateRange(in, flags&1 != 0, func(id string) error { got[id] = true; return nil }); err != nil {
+					c.Violate("index:range-error", "IterateRange(%s): %v", rangeStr(in), err)
+					return false
+				}
+				for id := range nilIDs {
+					if !got[id] {
+						c.Violate("range:intersect-excludes", "%s ∩ [nil, nil] = %s: scanning it misses an entry whose value is nil", rangeStr(open), rangeStr(in))
+						return false
+					}
+				}
+				if len(nilIDs) > 0 {
+					c.Cell("intersect|nil-only|%v|%s", flags&2 != 0, typeClass(b))
+				}
+			}
+		}
 		nr := 60
 		if c.Thorough() {
 			nr = 150
@@ -387,7 +429,129 @@ func RunIndex(c *core.Ctx) {
 	if !check(index.CreateIndex(coll, field, index.SingleField, rtx).(index.RangeIndex), index.CreateIndex(coll, field+"y", index.SingleField, rtx)) {
 		return
 	}
+	if !transientFaultScans(c, rtx, coll, field, bounds, byID, entries, backend) {
+		return
+	}
 	c.Sample(map[string]any{"backend": backend, "entries": n, "field": field, "profile_kind": prof.Kind})
+}
+
+var errReadFault = errors.New("verif: injected read fault")
+
+// flaky fails exactly one read of a transaction (the failAt-th of Get and of the cursor item reads - the read failures
+// property C04 lists; cursor creation and Seek cannot fail on the shipped backends and are left alone) and works again afterwards.
+type flaky struct {
+	calls, failAt int
+	fired         bool
+}
+
+func (f *flaky) tick() error {
+	f.calls++
+	if f.calls == f.failAt {
+		f.fired = true
+		return errReadFault
+	}
+	return nil
+}
+
+type flakyTx struct {
+	store.Tx
+	f *flaky
+}
+
+func (t flakyTx) Get(k []byte) ([]byte, error) {
+	if err := t.f.tick(); err != nil {
+		return nil, err
+	}
+	return t.Tx.Get(k)
+}
+
+func (t flakyTx) Cursor(fwd bool) (store.Cursor, error) {
+	cur, err := t.Tx.Cursor(fwd)
+	if err != nil {
+		return nil, err
+	}
+	return &flakyCursor{Cursor: cur, f: t.f}, nil
+}
+
+type flakyCursor struct {
+	store.Cursor
+	f *flaky
+}
+
+func (c *flakyCursor) Item() (store.Item, error) {
+	if err := c.f.tick(); err != nil {
+		return store.Item{}, err
+	}
+	return c.Cursor.Item()
+}
+
+// transientFaultScans: a range scan during which ONE read of the store fails (and the next succeeds) either reports an
+// error or yields exactly the in-range ids in order - never a wrong answer with a nil error.
+func transientFaultScans(c *core.Ctx, rtx store.Tx, coll, field string, bounds []any, byID map[string]any, entries []idxEntry, backend string) bool {
+	r := c.R
+	if len(entries) == 0 {
+		return true
+	}
+	f := &flaky{}
+	idx := index.CreateIndex(coll, field, index.SingleField, flakyTx{Tx: rtx, f: f}).(index.RangeIndex)
+	nr, firstN, sampled := 5, 16, 4
+	if c.Thorough() {
+		nr, firstN, sampled = 20, 24, 8
+	}
+	for k := 0; k < nr; k++ {
+		// bounds taken from the stored values, so that the bound value has entries of its own to be stepped over
+		rg := &index.Range{Start: model.DeepCopy(entries[r.Intn(len(entries))].v), End: model.DeepCopy(entries[r.Intn(len(entries))].v), StartIncluded: r.Bool(), EndIncluded: r.Bool()}
+		switch r.Intn(5) {
+		case 0:
+			rg.Start, rg.StartIncluded = nil, false
+		case 1:
+			rg.End, rg.EndIncluded = nil, false
+		case 2:
+			rg.End = model.DeepCopy(gen.Pick(r, bounds))
+		}
+		if !rangeInDomain(rg) {
+			continue
+		}
+		rev := r.Bool()
+		scan := func(failAt int) ([]string, error) {
+			f.calls, f.failAt, f.fired = 0, failAt, false
+			var got []string
+			err := idx.IterateRange(rg, rev, func(id string) error { got = append(got, id); return nil })
+			return got, err
+		}
+		clean, err := scan(0)
+		if err != nil {
+			c.Violate("index:range-error", "IterateRange(%s): %v", rangeStr(rg), err)
+			return false
+		}
+		total := f.calls
+		positions := []int{}
+		for p := 1; p <= total && p <= firstN; p++ {
+			positions = append(positions, p)
+		}
+		for p := 0; p < sampled && total > firstN; p++ {
+			positions = append(positions, r.Range(firstN+1, total))
+		}
+		for _, p := range positions {
+			got, err := scan(p)
+			c.Eval(1)
+			if !f.fired {
+				continue
+			}
+			c.Count("transient_read_faults_injected", 1)
+			if err != nil {
+				c.Count("transient_read_faults_reported", 1)
+				c.Cell("fault-scan|reported|rev=%v|%v%v|%s", rev, rg.StartIncluded, rg.EndIncluded, backendClass(backend))
+				continue
+			}
+			if strings.Join(got, ",") != strings.Join(clean, ",") {
+				c.Violate("index:fault-swallowed", "IterateRange(%s, reverse=%v) on %s: read call %d of %d of the scan failed once; the scan returned nil and %d ids instead of the %d in-range ids (without the fault: %v, with it: %v)", rangeStr(rg), rev, backend, p, total, len(got), len(clean), clean, got)
+				return false
+			}
+			c.Cell("fault-scan|exact-despite-fault|rev=%v|%s", rev, backendClass(backend))
+		}
+	}
+	return true
 }
 
 // checkScan compares a scan result with the entries the range contains.
